@@ -45,7 +45,10 @@ ToInt(v) == IF Len(v) = 0 THEN 0
 
 \* n mod 2^w as a w-bit vector; n may be negative (two's complement)
 ModP(n, m) == n % m       \* TLC's % is the mathematical modulo for positive m
-FromInt(n, w) == LET m == ModP(n, Pow2(w)) IN [i \in 1..w |-> (m \div Pow2(i - 1)) % 2]
+FromIntSmall(n, w) == LET m == ModP(n, Pow2(w)) IN [i \in 1..w |-> (m \div Pow2(i - 1)) % 2]
+\* widths above 30 (TLC integers are 32 bit): the value (|n| < 2^29) is converted at 30 bits and extended
+FromInt(n, w) == IF w <= 30 THEN FromIntSmall(n, w)
+                 ELSE LET v == FromIntSmall(n, 30) IN [i \in 1..w |-> IF i <= 30 THEN v[i] ELSE IF n < 0 THEN 1 ELSE 0]
 
 \* ---- extension / truncation
 ZeroExt(v, w) == [i \in 1..w |-> IF i <= Len(v) THEN v[i] ELSE 0]
